@@ -7,8 +7,8 @@ import numpy as np
 C_MININEC = 299.8   # the code's speed of light in Mm/s: wavelength = 299.8 / f[MHz]
 
 BASE5 = [(0, 0, 0), (1, 0, 0), (0, 1.1, 0), (0, 0, 0.9), (1, 1.1, 0.9)]
-BASE7 = BASE5 + [(1, 0, 0.9), (0.55, 0.3, 0.6)]      # no three points collinear (a wire on top of another is degenerate)
-GND5 = [(0, 0, 0), (1, 0.2, 0), (0.1, 0.3, 0.8), (0.9, 1.0, 0.7), (0.2, 1.2, 1.4)]
+BASE7 = BASE5 + [(0.9, 0.2, 1.0), (0.6, 0.8, 0.3)]      # no three points collinear, no two edges crossing (checked by tools)
+GND5 = [(0, 0, 0), (1, 0.2, 0), (0.1, 0.3, 0.8), (0.9, 1.0, 0.7), (0.5, 1.2, 1.55)]
 GND7 = GND5 + [(1.0, 0.1, 1.5), (0.5, 0.7, 0.0)]
 
 # eight fixed (rotation, scale in wavelengths per lattice unit, frequency) variants
@@ -39,7 +39,7 @@ def rotmat(angles_deg):
 
 # lattice with exactly axis-aligned, vertical and diagonal (dx == -dy, dx == dy) wire directions:
 # code that special-cases a direction component being zero or two components cancelling shows up here
-SYMG5 = [(0, 0, 0), (1.2, -1.2, 0), (-0.6, 0.6, 0.9), (0.6, 0.6, 0.9), (0, 0, 1.0)]
+SYMG5 = [(0, 0, 0), (1.0, -0.4, 0), (-0.6, 0.6, 0.9), (0.6, 0.6, 0.9), (0, 0, 1.0)]
 
 
 def lattice(seed, ground=False, n=5, special=False):
@@ -69,6 +69,14 @@ def edge_sets(npts, dmax, dmin=1):
     und = list(itertools.combinations(range(npts), 2))
     for d in range(dmin, dmax + 1):
         for es in itertools.combinations(und, d):
+            yield es
+
+
+def edge_sets_new(npts, dmax, old=5, dmin=1):
+    """edge sets on npts points that use at least one of the points beyond the first `old` (the others are covered
+    by the smaller lattice)"""
+    for es in edge_sets(npts, dmax, dmin):
+        if any(v >= old for e in es for v in e):
             yield es
 
 
